@@ -379,8 +379,31 @@ func (e *Engine) rangeSt(st *State, x string, t types.Type) string {
 		r = and(r, or(eq(x, "0"), sx("select", e.allocGet(st), x)))
 	case *types.Slice:
 		r = and(r, or(eq(sx("sl_reg", x), "0"), sx("select", e.allocGet(st), sx("sl_reg", x))))
+	case *types.Struct:
+		// references held in the fields of a struct value are allocated too
+		r = and(r, e.structRefsAllocated(st, x, t, 0))
 	}
 	return r
+}
+
+func (e *Engine) structRefsAllocated(st *State, x string, t types.Type, depth int) string {
+	si := e.structInfoOf(t)
+	if si == nil || depth > 3 {
+		return "true"
+	}
+	var cs []string
+	for i, ft := range si.ftypes {
+		fx := sx(si.fields[i], x)
+		switch ft.Underlying().(type) {
+		case *types.Pointer, *types.Map:
+			cs = append(cs, or(eq(fx, "0"), sx("select", e.allocGet(st), fx)))
+		case *types.Slice:
+			cs = append(cs, or(eq(sx("sl_reg", fx), "0"), sx("select", e.allocGet(st), sx("sl_reg", fx))))
+		case *types.Struct:
+			cs = append(cs, e.structRefsAllocated(st, fx, ft, depth+1))
+		}
+	}
+	return and(cs...)
 }
 
 func (e *Engine) freshRef(st *State, hint string) string {
